@@ -1,0 +1,109 @@
+//go:build verif
+
+// Contracts for allocation (message.go: alloc, allocSegment, setSegment, arenas).
+package capnp
+
+//@ spec
+//@ func forallSegment(f func(t *Segment) bool) bool { panic("spec") }
+//@ func atOldInt(f func() int) int                 { panic("spec") }
+//@ func atOldBool(f func() bool) bool              { panic("spec") }
+//@ func atOldByte(f func() byte) byte              { panic("spec") }
+//@ func atOldMsg(f func() *Message) *Message       { panic("spec") }
+//@ func atOldBytes(f func() []byte) []byte         { panic("spec") }
+//@ func atOldSeg(f func() *Segment) *Segment       { panic("spec") }
+//@ func pad8(sz Size) M { return (M(sz) + 7) &^ 7 }
+//@ // a segment objects can be allocated in: handle invariant plus word alignment
+//@ func wfSegW(s *Segment) bool { return segOK(s) && len(s.data)&7 == 0 && wfMsg(s.msg) }
+//@ // representation invariant of Message: every registered Segment object belongs to the message
+//@ // and is registered under its own id
+//@ func wfMsg(m *Message) bool {
+//@ 	return m != nil && m.Arena != nil && implies(m.firstSeg.msg != nil, m.firstSeg.msg == m && m.firstSeg.id == 0) &&
+//@ 		forall(0, 1<<32, func(i int) bool {
+//@ 			return implies(m.segs != nil && m.segs[SegmentID(i)] != nil, m.segs[SegmentID(i)].msg == m && m.segs[SegmentID(i)].id == SegmentID(i))
+//@ 		})
+//@ }
+//@ // t is exactly as it was in the pre-state
+//@ func segSame(t *Segment) bool {
+//@ 	return t.msg == atOldMsg(func() *Message { return t.msg }) && t.id == SegmentID(atOldInt(func() int { return int(t.id) })) &&
+//@ 		sameSlice(t.data, atOldBytes(func() []byte { return t.data }))
+//@ }
+//@ // t kept its message, did not shrink and kept every byte it had (possibly in a new array)
+//@ func segGrown(t *Segment) bool {
+//@ 	return t.msg == atOldMsg(func() *Message { return t.msg }) && len(t.data) >= atOldInt(func() int { return len(t.data) }) &&
+//@ 		forall(0, atOldInt(func() int { return len(t.data) }), func(j int) bool {
+//@ 			return t.data[j] == atOldByte(func() byte { return t.data[j] })
+//@ 		})
+//@ }
+//@ // Frame of every allocating operation on message m: every Segment object of another message is
+//@ // exactly as before; every Segment object of m that was in use never shrinks and keeps its bytes
+//@ func allocFrame(m *Message) bool {
+//@ 	return forallSegment(func(t *Segment) bool {
+//@ 		return implies(atOldBool(func() bool { return t.msg != nil }),
+//@ 			segGrown(t) && (atOldBool(func() bool { return t.msg == m }) || segSame(t)))
+//@ 	})
+//@ }
+//@ end
+
+//@ iface Arena.Allocate -> id, data, err
+//@   -- ASSUMED (documentation of Arena.Allocate: "cap(data) - len(data) >= minsz ... the arena is
+//@   -- responsible for preserving the existing data in the returned byte slice"); additionally
+//@   -- assumed: segments are whole words and below the segment size limit, no existing array is written
+//@   modifies e:uint8
+//@   ensures implies(err == nil, M(cap(data))-M(len(data)) >= M(minsz) && M(len(data)) <= mMaxSeg() && len(data)&7 == 0)
+//@   ensures implies(err == nil && segs[id] != nil, len(data) == len(segs[id].data))
+//@   ensures implies(err == nil && segs[id] != nil, forall(0, len(data), func(j int) bool { return data[j] == segs[id].data[j] }))
+//@   ensures bytesUnchanged()
+
+//@ func Message.setSegment -> r
+//@   props C05 C16
+//@   requires m != nil
+//@   -- no precondition on the message (the read path reaches this function through lookupSegment
+//@   -- without the invariant at hand): what depends on the representation invariant is conditional
+//@   old wf0 bool = wfMsg(m)
+//@   ensures implies(wf0, wfMsg(m))
+//@   ensures r != nil
+//@   ensures b1: implies(wf0, r.msg == m)
+//@   ensures b2: implies(wf0, r.id == id)
+//@   ensures b3: sameSlice(r.data, data) && cap(r.data) == cap(data)
+//@   -- r is the Segment object already registered for id, or the embedded first segment (only
+//@   -- while the segment map does not exist), or a new object
+//@   ensures which: (atOldBool(func() bool { return m.segs != nil && m.segs[id] != nil }) && r == atOldSeg(func() *Segment { return m.segs[id] })) ||
+//@     (atOldBool(func() bool { return m.segs == nil }) && id == 0 && r == &m.firstSeg) || freshobj(r)
+//@   ensures frame: forallSegment(func(t *Segment) bool { return t == r || segSame(t) })
+
+//@ func Message.allocSegment -> rs, err
+//@   props C05 C16
+//@   requires wfMsg(m)
+//@   ensures wfMsg(m)
+//@   ensures implies(err != nil, rs == nil)
+//@   ensures a1: implies(err == nil, rs != nil && rs.msg == m)
+//@   ensures a2: implies(err == nil, M(cap(rs.data))-M(len(rs.data)) >= M(sz))
+//@   ensures a3: implies(err == nil, M(len(rs.data)) <= mMaxSeg() && len(rs.data)&7 == 0)
+//@   ensures bytesUnchanged()
+//@   ensures same: implies(err == nil && !freshobj(rs) && atOldBool(func() bool { return rs.msg != nil }),
+//@     len(rs.data) == atOldInt(func() int { return len(rs.data) }))
+
+//@ func alloc -> rs, addr, err
+//@   props C04 C05 C16 C18
+//@   requires wfSegW(s)
+//@   ensures implies(err != nil, rs == nil)
+//@   old m0 *Message = s.msg
+//@   ensures c1: implies(err == nil, segOK(rs) && rs.msg == m0)
+//@   ensures c2: implies(err == nil, len(rs.data)&7 == 0)
+//@   ensures c3: implies(err == nil, wfMsg(rs.msg))
+//@   -- the new object: word aligned, exactly pad8(sz) bytes at the end of the chosen segment, zeroed
+//@   ensures place: implies(err == nil, addr&7 == 0 && M(addr)+pad8(sz) == M(len(rs.data)))
+//@   ensures zeroed: implies(err == nil, forall(int(addr), len(rs.data), func(j int) bool { return rs.data[j] == 0 }))
+//@   -- it lies above everything the segment held before: nothing that existed is overwritten
+//@   ensures above: implies(err == nil && !freshobj(rs) && atOldBool(func() bool { return rs.msg != nil }),
+//@     M(addr) == M(atOldInt(func() int { return len(rs.data) })))
+//@   ensures untouched: implies(err == nil, bytesUnchangedExcept(rs.data, int(addr), len(rs.data)))
+//@   ensures implies(err != nil, bytesUnchanged())
+//@   loop 0 "range space"
+//@     invariant 0 <= rangeidx && rangeidx <= len(space) && sameArr(space, s.data)
+//@     invariant M(addr) <= M(len(s.data)) && sameSlice(space, s.data[int(addr):])
+//@     invariant forall(0, rangeidx, func(j int) bool { return space[j] == 0 })
+//@     invariant bytesUnchangedExcept(space, 0, len(space))
+//@   assert before "return s, addr, nil" zl: forall(0, len(space), func(j int) bool { return space[j] == 0 })
+//@   assert before "return s, addr, nil" zr: sameSlice(space, s.data[int(addr):])
+//@   assert before "return s, addr, nil" zq: forall(int(addr), len(s.data), func(j int) bool { return s.data[j] == 0 })
